@@ -23,7 +23,7 @@ RULE = ("histories of 4-22 commands issued on a real cashews.backends.redis.Redi
         "clock advances of 0-3 s in 1/8 s steps between commands (so TTLs lapse); the server is switched down / up at random positions (every "
         "position of short histories in the thorough tier); after every command the stand-in's whole keyspace is dumped. A tenth more histories drive one sliding window with one period at non-decreasing "
         "instants whose gaps are 0, 1, period-1, period, period+1 (earlier hits exactly on the window's edges). Second stream: every decorator "
-        "(cache, early, soft, hit, failover, locked, thunder-protected, rate_limit, slice_rate_limit, circuit_breaker, bloom, iterator) stacked on the backend "
+        "(cache, early, soft, hit, failover, locked with and without waiting, thunder-protected, rate_limit, slice_rate_limit, circuit_breaker, bloom, iterator) stacked on the backend "
         "with the server down from the start or from the k-th call. non-trivial: the history contains a command while the server is down AND a TTL lapse "
         "or a rejected conditional write")
 TRUSTED_BASE = ["Coq 8.16.1 kernel + vm_compute", "functional_extensionality_dep (Coq.Logic.FunctionalExtensionality; server states are functions)",
@@ -97,7 +97,7 @@ def _window_case(rng):
     return {"kind": "history", "sup": True, "hist": hist}
 
 
-DECORATORS = ["cache", "cache_lock", "early", "soft", "hit", "failover", "locked", "rate_limit", "slice_rate_limit", "circuit_breaker", "bloom", "dual_bloom", "iterator"]
+DECORATORS = ["cache", "cache_lock", "early", "soft", "hit", "failover", "locked", "locked_nowait", "rate_limit", "slice_rate_limit", "circuit_breaker", "bloom", "dual_bloom", "iterator"]
 
 
 def gen_cases(rng, tier):
@@ -236,6 +236,7 @@ def _run_decor(case):
         elif d == "hit": f = cache.hit(ttl=10, cache_hits=3)(body)
         elif d == "failover": f = cache.failover(ttl=10)(body)
         elif d == "locked": f = cache.locked(ttl=10)(body)
+        elif d == "locked_nowait": f = cache.locked(ttl=10, wait=False)(body)
         elif d == "rate_limit": f = cache.rate_limit(limit=100, period=10)(body)
         elif d == "slice_rate_limit": f = cache.slice_rate_limit(limit=100, period=10)(body)
         elif d == "circuit_breaker": f = cache.circuit_breaker(errors_rate=50, period=10, ttl=5)(body)
